@@ -76,12 +76,25 @@ MoreOracles == pc # "skip" /\ orc + 1 < 2 ^ ties
 TRetry == /\ l <= Len(T) /\ ph = "run" /\ ~Running /\ ~AMatches(Ev) /\ MoreOracles
           /\ orc' = orc + 1 /\ Reset(InpOf(Ev)) /\ UNCHANGED <<tid, l, ph, tbl>>
 
-TaggedClasses(e, i) == {ClassOfText(i.rows[(e.tagged[j] - 1) \div i.n + 1][((e.tagged[j] - 1) % i.n) + 1]) : j \in 1..Len(e.tagged)}
-\* a violation of the text clause that is confined to cells carrying style tags is the known defect
-\* "cells are wrapped by a wrapper that does not know about style tags"
+\* The known defect "cells are wrapped by a wrapper that does not know about style tags" covers a tagged cell that HAS
+\* to be wrapped: its visible text is wider than its column as drawn (boxed styles: the distance of the column's rules
+\* minus the padding; without rules the column width cannot be read off the text and every tagged cell counts).
+\* A violation of the text clause confined to such cells carries the key "tagged-cell"; a damaged tagged cell that
+\* would have fitted its column is an ordinary violation.
+ColWidth(i, L, k) ==
+  LET rl == SelectSeq(L, LAMBDA ln : Len(Seps(ln)) = i.n + 1)
+  IN IF rl = <<>> THEN 0 ELSE Seps(rl[1])[k + 1] - Seps(rl[1])[k] - 1 - Excess(i.style)
+TaggedToWrap(e, i, L) ==
+  {c \in {e.tagged[j] : j \in 1..Len(e.tagged)} :
+      LET r == (c - 1) \div i.n + 1
+          k == ((c - 1) % i.n) + 1
+      IN IF Boxed(i.style) THEN Len(RStrip(i.rows[r][k])) > ColWidth(i, L, k) ELSE TRUE}
 TextKey(e) ==
   LET i == InpOf(e)
-  IN IF e.tagged # <<>> /\ BadClasses(i, e.obs.lines) \subseteq TaggedClasses(e, i) THEN "tagged-cell" ELSE ""
+      L == e.obs.lines
+      wr == TaggedToWrap(e, i, L)
+      cls == {ClassOfText(i.rows[(c - 1) \div i.n + 1][((c - 1) % i.n) + 1]) : c \in wr}
+  IN IF wr # {} /\ BadClasses(i, L) \subseteq cls THEN "tagged-cell" ELSE ""
 ExcKey(e) == IF e.tagged # <<>> THEN e.obs.cls \o "/tagged-cell" ELSE e.obs.cls
 
 Clauses(e) ==
